@@ -68,4 +68,17 @@ def joinWith (sep : String) (l : List String) : String := sep.intercalate l
 
 def showList (l : List String) : String := "[" ++ ";".intercalate l ++ "]"
 
+/-- a spec result `r` known to be a SUFFIX of the argument `h`, rendered as the view std returns -/
+def showSuffixOf (h r : List Nat) : String := showView false ⟨h.length - r.length, r.length⟩
+/-- a spec result `r` known to be a PREFIX of the argument -/
+def showPrefixOf (r : List Nat) : String := showView false ⟨0, r.length⟩
+def showOptSuffixOf (h : List Nat) : Option (List Nat) → String
+  | none => "none"
+  | some r => showSuffixOf h r
+def showOptPrefixOf : Option (List Nat) → String
+  | none => "none"
+  | some r => showPrefixOf r
+/-- a spec result `r` obtained by trimming the start (leaving `mid`) and then the end of `h` -/
+def showTrimmed (h mid r : List Nat) : String := showView false ⟨h.length - mid.length, r.length⟩
+
 end Driver
